@@ -602,8 +602,11 @@ class World:
                 got_t = [(c, None, None) for c in o.get_child_nodes(sort_keys=sort)]
                 want_t = [(c, None, None) for c, _f, _i in want_t]
             else:
-                got_t = [(c, None, None) for c in o.children]
+                lst = o.children
+                got_t = [(c, None, None) for c in lst]
                 want_t = [(c, None, None) for c, _f, _i in want_t]
+                if isinstance(lst, list):
+                    lst.append(o)  # the caller uses the returned list as a work list: it is the caller's own
             ok = len(got_t) == len(want_t) and all(a[0] is b[0] and a[1] == b[1] and a[2] == b[2] for a, b in zip(got_t, want_t))
             if not ok:
                 falsy = any(hasattr(c, "__len__") for c, _f, _i in want_t)
